@@ -28,6 +28,9 @@ CLAIMED = {
  "C07": ("7/C07", "decoded-value-must-be-consumed path rule (node cut with presence exemption), ordering rules on the stream handler, provenance of dump reader / terminator index / proposal payload, guard entailment on the checksum comparison",
          "Structural necessary conditions only: no decoded record bypasses the batch, batch cleared only after marshal, final proposal before success, proposal errors returned; dump reads one snapshot; terminator with the dump's index written after the dump and before copy-out and forwarded by the loader; exactly the user pairs are exported; catalogue switch after a successful load into the fresh shard; checksum gate with per-table reset and feed. Content equality is not decided.",
          "go/types+go/ssa; io.Reader contract of the snapshot file; Pebble snapshot semantics"),
+ "C04": ("7/C04", "must-pass-through / ordering rules (node cut with deferred-call awareness) over the file-system effect sequence of Open, the two snapshot recoverers and package pebble's 'current' protocol; guard entailment on the cleanup; provenance of Open's result; shared C01.a-c obligations",
+         "Structural necessary conditions only: data+index in one batch; Sync/Close flush; temp-file write-sync-rename-dirsync protocol with no dropped error; directory exists before its name is published; install order received-files-synced -> build -> save -> replace -> swap -> close(old) -> cleanup; cleanup spares 'current' and the directory it names; Open returns the persisted index. The crash-point quantifier itself and Pebble's durability are not decided.",
+         "go/types+go/ssa; vfs durability semantics; pebble.Open creates its directory, Ingest is durable on return"),
 }
 PENDING_REASON = "rules designed (DESIGN.md section 7), check not built yet"
 checks=[]; na=[]
